@@ -288,7 +288,3 @@ pub fn cmd_pure(a: &[String]) {
     std::fs::write(&a[5], s).unwrap();
 }
 
-pub fn cmd_matrix(_a: &[String]) {
-    eprintln!("matrix: not yet implemented");
-    std::process::exit(2);
-}
